@@ -10,6 +10,9 @@
 
 #include "IO/ProgramOptions.hpp"
 
+#include <iomanip>
+#include <limits>
+
 vfps::ProgramOptions::ProgramOptions() :
     _configfile("default.cfg"),
     I_b({3e-3f}),
@@ -435,10 +438,12 @@ void vfps::ProgramOptions::save(std::string fname)
         if (!it->second.value().empty()) {
             if (it->second.value().type() == typeid(float)) {
                 ofs << it->first << '='
+                    << std::setprecision(std::numeric_limits<float>::max_digits10)
                     << _vm[it->first].as<float>()
                     << std::endl;
             } else if (it->second.value().type() == typeid(double)) {
                 ofs << it->first << '='
+                    << std::setprecision(std::numeric_limits<double>::max_digits10)
                     << _vm[it->first].as<double>()
                     << std::endl;
             } else if (it->second.value().type() == typeid(int32_t)) {
